@@ -81,6 +81,17 @@ func deepCopySchemaDefinition(def *SchemaDefinition) *SchemaDefinition {
 	return ret
 }
 
+func copyFeatureSet(fs FeatureSet) FeatureSet {
+	if fs == nil {
+		return nil
+	}
+	ret := make(FeatureSet, len(fs))
+	for k := range fs {
+		ret[k] = struct{}{}
+	}
+	return ret
+}
+
 func fixTypePointer(t Type, namedTypes map[string]NamedType) Type {
 	switch t := t.(type) {
 	case NamedType:
@@ -105,6 +116,7 @@ func fixTypePointer(t Type, namedTypes map[string]NamedType) Type {
 func fixNamedTypePointers(node any, namedTypes map[string]NamedType) {
 	switch n := node.(type) {
 	case *UnionType:
+		n.RequiredFeatures = copyFeatureSet(n.RequiredFeatures)
 		if n.Directives != nil {
 			newValues := make([]*Directive, len(n.Directives))
 			for i, v := range n.Directives {
@@ -126,6 +138,7 @@ func fixNamedTypePointers(node any, namedTypes map[string]NamedType) {
 			n.MemberTypes = newValues
 		}
 	case *InterfaceType:
+		n.RequiredFeatures = copyFeatureSet(n.RequiredFeatures)
 		if n.Directives != nil {
 			newValues := make([]*Directive, len(n.Directives))
 			for i, v := range n.Directives {
@@ -145,6 +158,7 @@ func fixNamedTypePointers(node any, namedTypes map[string]NamedType) {
 			n.Fields = newValues
 		}
 	case *InputObjectType:
+		n.RequiredFeatures = copyFeatureSet(n.RequiredFeatures)
 		if n.Directives != nil {
 			newValues := make([]*Directive, len(n.Directives))
 			for i, v := range n.Directives {
@@ -164,6 +178,7 @@ func fixNamedTypePointers(node any, namedTypes map[string]NamedType) {
 			n.Fields = newValues
 		}
 	case *ObjectType:
+		n.RequiredFeatures = copyFeatureSet(n.RequiredFeatures)
 		if n.Directives != nil {
 			newValues := make([]*Directive, len(n.Directives))
 			for i, v := range n.Directives {
@@ -194,6 +209,7 @@ func fixNamedTypePointers(node any, namedTypes map[string]NamedType) {
 			n.ImplementedInterfaces = newValues
 		}
 	case *FieldDefinition:
+		n.RequiredFeatures = copyFeatureSet(n.RequiredFeatures)
 		if n.Directives != nil {
 			newValues := make([]*Directive, len(n.Directives))
 			for i, v := range n.Directives {
@@ -225,12 +241,25 @@ func fixNamedTypePointers(node any, namedTypes map[string]NamedType) {
 		}
 		n.Type = fixTypePointer(n.Type, namedTypes)
 	case *Directive:
+		if n.Arguments != nil {
+			newValues := make([]*Argument, len(n.Arguments))
+			for i, v := range n.Arguments {
+				newValue := *v
+				newValues[i] = &newValue
+			}
+			n.Arguments = newValues
+		}
 		if n.Definition != nil {
 			newDefinition := *n.Definition
 			fixNamedTypePointers(&newDefinition, namedTypes)
 			n.Definition = &newDefinition
 		}
 	case *DirectiveDefinition:
+		if n.Locations != nil {
+			newValues := make([]DirectiveLocation, len(n.Locations))
+			copy(newValues, n.Locations)
+			n.Locations = newValues
+		}
 		if n.Arguments != nil {
 			newValues := make(map[string]*InputValueDefinition, len(n.Arguments))
 			for k, v := range n.Arguments {
@@ -241,6 +270,7 @@ func fixNamedTypePointers(node any, namedTypes map[string]NamedType) {
 			n.Arguments = newValues
 		}
 	case *EnumType:
+		n.RequiredFeatures = copyFeatureSet(n.RequiredFeatures)
 		if n.Directives != nil {
 			newValues := make([]*Directive, len(n.Directives))
 			for i, v := range n.Directives {
@@ -259,6 +289,7 @@ func fixNamedTypePointers(node any, namedTypes map[string]NamedType) {
 			n.Values = newValues
 		}
 	case *ScalarType:
+		n.RequiredFeatures = copyFeatureSet(n.RequiredFeatures)
 		if n.Directives != nil {
 			newValues := make([]*Directive, len(n.Directives))
 			for i, v := range n.Directives {
